@@ -36,6 +36,8 @@ type Doc struct {
 	PrologMutate func(nums []int, bodyLen int) []int
 	// RowsMutate, if set, may change the decoded cross-reference stream rows (type, field 2, field 3).
 	RowsMutate func(rows [][3]int) [][3]int
+	// IndirectLengths makes Bytes write every stream's /Length as a reference to an integer object.
+	IndirectLengths bool
 }
 
 func New() *Doc { return &Doc{objs: map[int]*object{}, next: 1, Version: "1.7", Eol: "\n"} }
@@ -68,9 +70,29 @@ func (d *Doc) Bytes() []byte {
 		nrs = append(nrs, n)
 	}
 	sort.Ints(nrs)
+	objs := d.objs
+	lenRef := map[int]int{}
+	if d.IndirectLengths {
+		// every stream's /Length becomes a reference to an integer object of its own (the way Ghostscript and
+		// cairo write streams); the integer objects are numbered after the highest number in use
+		objs = map[int]*object{}
+		top := 0
+		for _, n := range nrs {
+			objs[n] = d.objs[n]
+			top = n
+		}
+		for _, n := range append([]int{}, nrs...) {
+			if d.objs[n].isStrm {
+				top++
+				lenRef[n] = top
+				objs[top] = &object{nr: top, body: fmt.Sprint(len(d.objs[n].stream))}
+				nrs = append(nrs, top)
+			}
+		}
+	}
 	off := map[int]int{}
 	for _, n := range nrs {
-		o := d.objs[n]
+		o := objs[n]
 		off[n] = b.Len()
 		fmt.Fprintf(&b, "%d 0 obj%s", n, d.Eol)
 		if o.isStrm {
@@ -78,7 +100,11 @@ func (d *Doc) Bytes() []byte {
 			if !strings.HasPrefix(dict, "<<") {
 				dict = "<<" + dict + ">>"
 			}
-			dict = dict[:len(dict)-2] + fmt.Sprintf("/Length %d>>", len(o.stream))
+			if ln, ok := lenRef[n]; ok {
+				dict = dict[:len(dict)-2] + fmt.Sprintf("/Length %s>>", Ref(ln))
+			} else {
+				dict = dict[:len(dict)-2] + fmt.Sprintf("/Length %d>>", len(o.stream))
+			}
 			fmt.Fprintf(&b, "%s%sstream\n", dict, d.Eol)
 			b.Write(o.stream)
 			fmt.Fprintf(&b, "%sendstream%s", d.Eol, d.Eol)
@@ -96,7 +122,7 @@ func (d *Doc) Bytes() []byte {
 	// free list: chain the free entries
 	free := []int{0}
 	for n := 1; n <= max; n++ {
-		if _, ok := d.objs[n]; !ok {
+		if _, ok := objs[n]; !ok {
 			free = append(free, n)
 		}
 	}
@@ -109,7 +135,7 @@ func (d *Doc) Bytes() []byte {
 		}
 	}
 	for n := 0; n <= max; n++ {
-		if _, ok := d.objs[n]; ok {
+		if _, ok := objs[n]; ok {
 			fmt.Fprintf(&b, "%010d %05d n \n", off[n], 0)
 		} else {
 			g := d.FreeGen
